@@ -255,6 +255,14 @@ def c13_5(ctx, r):
     M = rn[0].ast.value.id if rn and isinstance(rn[0].ast.value, ast.Name) else None
     if M is None:
         raise AnalysisError("C13.5", "the closure does not return a local mapping")
+    # the mapping is returned only after the closure loop ran: it is filled nowhere else, and every selected job with a selected
+    # blocker needs its entry even when no further dependent can be added
+    cfg0 = ctx.cfg(fn)
+    heads0 = [n for n in cfg0.nodes if n.kind in ("for", "loop_head") and n.ast is lp]
+    for n in [x for x in cfg0.nodes if x.kind == "stmt" and isinstance(x.ast, ast.Return)]:
+        r.check(dominated_by(ctx, fn, n, heads0, NORMAL_KINDS), "the closure loop runs before the mapping is returned", key_of(fn, "returns before the closure loop"), fn.loc(n.ast),
+                f"`{ctx.src(n.ast)}` is reachable without the closure loop having run (an early exit, e.g. 'everything is selected already'): the mapping of restricted blockers is still empty, so "
+                "prepare_for_resubmission gives every reset job an empty blocker set and the rerun starts dependents before the jobs they wait for", "each once and in dependency order")
     if isinstance(lp, ast.While):
         r.ok("closure loop is unbounded (while)")
     else:
